@@ -179,7 +179,21 @@ func ruleDeleg(e *Env, rule, pkg string) {
 	}
 	ident := func(s string) string { return s }
 	if formatFn != nil {
-		checkFormatted(formatFn, "format(f)", "f", func() []pred.Val { return []pred.Val{pred.Sym{Name: R}, pred.Sym{Name: "f"}} }, ident)
+		// the unexported helper's own parameters: the receiver, the flags, and — in a variant that lets its callers hand
+		// in the buffer — a byte slice, for which the exported callers (decided through the helper below) pass nil
+		checkFormatted(formatFn, "format(f)", "f", func() []pred.Val {
+			args := []pred.Val{pred.Sym{Name: R}}
+			for _, q := range formatFn.Params[1:] {
+				if sl, ok := q.Type().Underlying().(*types.Slice); ok {
+					if b, ok := sl.Elem().Underlying().(*types.Basic); ok && b.Kind() == types.Uint8 {
+						args = append(args, pred.Const{})
+						continue
+					}
+				}
+				args = append(args, pred.Sym{Name: "f"})
+			}
+			return args
+		}, ident)
 	}
 	if fn := e.Method(rule, pkg, spec.typ, "String"); fn != nil {
 		checkFormatted(fn, "String", spec.stringFlag, func() []pred.Val { return []pred.Val{pred.Sym{Name: R}} }, ident)
